@@ -3,7 +3,10 @@ package c06
 
 import (
 	"fmt"
+	"github.com/hashicorp/hcl/v2/ext/dynblock"
+	"github.com/hashicorp/hcl/v2/hcldec"
 	"sort"
+	"strings"
 
 	"github.com/hashicorp/hcl/v2"
 	"github.com/hashicorp/hcl/v2/hclsyntax"
@@ -223,3 +226,154 @@ func Handle(c *core.Check, st core.State) {
 	}
 }
 
+// ---- bodies: decoding and dynamic block expansion must not launder marks ----
+
+type bodyCase struct {
+	name string
+	src  func(x string) string
+	spec hcldec.Spec
+	dyn  bool
+}
+
+var dynT = cty.DynamicPseudoType
+
+var bodyCases = []bodyCase{
+	{"attr", func(x string) string { return "a = " + x + "\n" }, &hcldec.AttrSpec{Name: "a", Type: dynT}, false},
+	{"attr-in-block", func(x string) string { return "blk {\n  a = " + x + "\n}\n" },
+		&hcldec.BlockSpec{TypeName: "blk", Nested: &hcldec.AttrSpec{Name: "a", Type: dynT}}, false},
+	{"blockattrs", func(x string) string { return "blk {\n  k = " + x + "\n  j = 1\n}\n" }, &hcldec.BlockAttrsSpec{TypeName: "blk", ElementType: dynT}, false},
+	{"default", func(x string) string { return "a = " + x + "\n" },
+		&hcldec.DefaultSpec{Primary: &hcldec.AttrSpec{Name: "a", Type: dynT}, Default: &hcldec.LiteralSpec{Value: cty.StringVal("dflt")}}, false},
+	{"dynamic-for_each/list", func(x string) string {
+		return "dynamic \"blk\" {\n  for_each = " + x + "\n  content {\n    k = blk.value\n  }\n}\n"
+	}, &hcldec.BlockListSpec{TypeName: "blk", Nested: &hcldec.AttrSpec{Name: "k", Type: dynT}}, true},
+	{"dynamic-for_each/tuple", func(x string) string {
+		return "dynamic \"blk\" {\n  for_each = " + x + "\n  content {\n    k = blk.key\n  }\n}\n"
+	}, &hcldec.BlockTupleSpec{TypeName: "blk", Nested: &hcldec.AttrSpec{Name: "k", Type: dynT}}, true},
+	{"dynamic-for_each/single", func(x string) string {
+		return "dynamic \"blk\" {\n  for_each = " + x + "\n  content {\n    k = 1\n  }\n}\n"
+	}, &hcldec.BlockSpec{TypeName: "blk", Nested: &hcldec.AttrSpec{Name: "k", Type: dynT}}, true},
+	{"dynamic-for_each/map", func(x string) string {
+		return "dynamic \"blk\" {\n  for_each = " + x + "\n  labels = [\"l${blk.key}\"]\n  content {\n    k = 1\n  }\n}\n"
+	}, &hcldec.BlockMapSpec{TypeName: "blk", LabelNames: []string{"n"}, Nested: &hcldec.AttrSpec{Name: "k", Type: cty.Number}}, true},
+	{"dynamic-nested-static", func(x string) string {
+		return "dynamic \"blk\" {\n  for_each = " + x + "\n  content {\n    inner {\n      k = blk.value\n    }\n  }\n}\n"
+	}, &hcldec.BlockTupleSpec{TypeName: "blk", Nested: &hcldec.BlockSpec{TypeName: "inner", Nested: &hcldec.AttrSpec{Name: "k", Type: dynT}}}, true},
+	{"dynamic-content-uses-var", func(x string) string {
+		return "dynamic \"blk\" {\n  for_each = [1, 2]\n  content {\n    k = " + x + "\n  }\n}\n"
+	}, &hcldec.BlockTupleSpec{TypeName: "blk", Nested: &hcldec.AttrSpec{Name: "k", Type: dynT}}, true},
+}
+
+// HandleBodies applies the mark relation to hcldec.Decode of bodies built around the expression.
+func HandleBodies(c *core.Check, st core.State) {
+	v, err := e1.DecodeVector(st)
+	if err != nil {
+		c.Broken("%v", err)
+		return
+	}
+	c.Count("vectors_replayed", 1)
+	x := e1.Render(v.Node, e1.Layout{})
+	if strings.Contains(x, "\n") {
+		x = "(" + x + ")"
+	}
+	funcs := e1.Functions()
+	base := e1.Scope()
+	alts := e1.Alternates()
+	for _, bc := range bodyCases {
+		src := bc.src(x)
+		f, pd := hclsyntax.ParseConfig([]byte(src), "b.hcl", hcl.InitialPos)
+		if pd.HasErrors() {
+			continue
+		}
+		decode := func(vars map[string]cty.Value) (val cty.Value, ds hcl.Diagnostics, pan any) {
+			ctx := &hcl.EvalContext{Variables: vars, Functions: funcs}
+			pan, _ = core.Guard(func() {
+				body := f.Body
+				if bc.dyn {
+					body = dynblock.Expand(body, ctx)
+				}
+				val, ds = hcldec.Decode(body, bc.spec, ctx)
+			})
+			return
+		}
+		for _, name := range v.FV {
+			bv, ok := base[name]
+			if !ok {
+				continue
+			}
+			var pairs []pair
+			for i, av := range alts[name] {
+				if i >= 3 {
+					break
+				}
+				pairs = append(pairs, pair{"top-level", bv.Mark(Mark), av.Mark(Mark)})
+			}
+			if a, b, ok := nestedPair(bv); ok {
+				pairs = append(pairs, pair{"nested", a, b})
+			}
+			for _, p := range pairs {
+				var r [2]cty.Value
+				var d [2]hcl.Diagnostics
+				for i, mv := range []cty.Value{p.a, p.b} {
+					sc := e1.With(base, map[string]cty.Value{name: mv})
+					c.Count("evaluations", 1)
+					var pan any
+					r[i], d[i], pan = decode(sc)
+					if pan != nil {
+						msg := fmt.Sprint(pan)
+						if len(msg) > 60 {
+							msg = msg[:60]
+						}
+						c.Violation("panic/body/"+bc.name+"/"+msg, fmt.Sprintf("decoding %q (%s) with %s = %s panicked: %v", src, bc.name, name, e1.Describe(mv), pan),
+							map[string]any{"state": st.Raw, "source": src, "case": bc.name, "kind": "body"})
+						return
+					}
+				}
+				if d[0].HasErrors() || d[1].HasErrors() {
+					continue
+				}
+				u0, _ := r[0].UnmarkDeep()
+				u1, _ := r[1].UnmarkDeep()
+				if u0.RawEquals(u1) {
+					continue
+				}
+				c.Nontrivial(bc.name + ":" + x)
+				if !HasMark(r[0]) || !HasMark(r[1]) {
+					// if the bare expression itself launders the mark this is the expression-level finding, not the body's
+					se, _ := hclsyntax.ParseExpression([]byte(x), "x.hcl", hcl.InitialPos)
+					ev0, ed0 := se.Value(&hcl.EvalContext{Variables: e1.With(base, map[string]cty.Value{name: p.a}), Functions: funcs})
+					ev1, ed1 := se.Value(&hcl.EvalContext{Variables: e1.With(base, map[string]cty.Value{name: p.b}), Functions: funcs})
+					if !ed0.HasErrors() && !ed1.HasErrors() {
+						w0, _ := ev0.UnmarkDeep()
+						w1, _ := ev1.UnmarkDeep()
+						if !w0.RawEquals(w1) && (!HasMark(ev0) || !HasMark(ev1)) {
+							continue // owned by the expression stage (localised there)
+						}
+					}
+					sig := "mark-lost/body/" + p.how + "/" + bc.name
+					if bc.dyn && strings.HasPrefix(bc.name, "dynamic-for_each") || bc.name == "dynamic-nested-static" {
+						// root cause: a marked for_each collection with NO elements generates no block that could carry the mark
+						ua, _ := p.a.Unmark()
+						ub, _ := p.b.Unmark()
+						ev := func(m cty.Value) bool {
+							se2, _ := hclsyntax.ParseExpression([]byte(x), "x.hcl", hcl.InitialPos)
+							fv, fd := se2.Value(&hcl.EvalContext{Variables: e1.With(base, map[string]cty.Value{name: m}), Functions: funcs})
+							fv, _ = fv.Unmark()
+							return !fd.HasErrors() && fv.IsKnown() && !fv.IsNull() && fv.CanIterateElements() && fv.LengthInt() == 0
+						}
+						_, _ = ua, ub
+						if ev(p.a) || ev(p.b) {
+							sig = "mark-lost/body/dynamic-for_each-empty"
+						}
+					}
+					if !c.Violation(sig,
+						fmt.Sprintf("decoding %q (%s): with %s = %s the result is %s, with %s = %s it is %s; the decoded value depends on the marked variable but does not carry its mark",
+							src, bc.name, name, e1.Describe(p.a), e1.Describe(r[0]), name, e1.Describe(p.b), e1.Describe(r[1])),
+						map[string]any{"state": st.Raw, "source": src, "case": bc.name, "kind": "body"}) {
+						return
+					}
+				}
+			}
+		}
+	}
+}
